@@ -42,11 +42,22 @@ def cells_for(tier, seed):
     fams = list(ens.FAMILIES)
     n = 18 if tier == "quick" else 54
     cells = []
+    bits_rng = np.random.default_rng([seed, 103])
+    bits = None
     for i in range(n):
-        fam = fams[i % len(fams)]
-        kernel = ["tpcn", "rwm"][(i // len(fams) + i) % 2] if fam != "mixed" else "rwm"  # (tpCN x folding is finding K1)
-        cells.append(ens.make_cell(int(rng.integers(0, 2**31 - 1)), family=fam, kernel=kernel, clustering=bool((i // 2 + i // len(fams)) % 2),
-                                   resample=["mult", "syst"][(i + i // len(fams)) % 2] if fam != "narrow" else ["syst", "mult"][(i // len(fams)) % 2],
+        fi, npass = i % len(fams), i // len(fams)
+        fam = fams[fi]
+        if fi == 0:
+            # even passes draw (kernel, clustering, resampler) per family; the following odd pass takes the complement, so every
+            # family meets both values of every factor within two passes
+            bits = bits_rng.integers(0, 2, size=(len(fams), 3)) if npass % 2 == 0 else 1 - bits
+        k, c, r = (int(v) for v in bits[fi])
+        kernel = ["tpcn", "rwm"][k]
+        if fam in ("periodic", "reflective", "mixed"):
+            # tpCN x folding is finding K1 (its matcher has no magnitude bound, so such a cell decides nothing): folded families run
+            # the random-walk kernel; one tpCN pass is kept in the thorough tier for the record
+            kernel = "rwm" if npass != 2 else "tpcn"
+        cells.append(ens.make_cell(int(rng.integers(0, 2**31 - 1)), family=fam, kernel=kernel, clustering=bool(c), resample=["mult", "syst"][r],
                                    N=64 if (tier == "quick" or i % 3) else 256))
     # one large-N interior cell in every tier: the finite-particle allowance is small there, which is what lets the paired
     # trimmed-vs-untrimmed comparison (and the absolute test) resolve a bias of a few per cent
